@@ -13,9 +13,9 @@ from ..engine import rule
 from ..model import Undecided
 from ..cfg import (dotted, call_name, is_call, simple_name, unparse, const_value, contains, find_all, enclosing,
                    enclosing_stmt, implied, all_atoms)
-from ..flow import Defs, depends, consteval, try_const, NotConst, fmt_all_numeric
+from ..flow import Canon, Defs, depends, consteval, try_const, NotConst, fmt_all_numeric
 from ..decide import expr_table
-from ..util import (str_variants, HOLE, keyword, returns_of, calls_in, poly_coeffs, inside, order_key)
+from ..util import (calls_to, call_targets, str_variants, HOLE, keyword, returns_of, calls_in, poly_coeffs, inside, order_key)
 
 NOT_DECIDED = ('history semantics: latest store wins, isolation of interleaved operations, actual bytes on disk, '
                'sqlite transaction behaviour')
@@ -126,12 +126,16 @@ def c05a(ctx):
         ctx.bad(fn.short + ':colour-pieces', "no ''.join(...) of fixed-width pieces found", fn)
     # separator-joined pieces must be numeric: lock file name
     fn = ctx.fn('mapproxy/cache/base.py:TileLocker.lock_filename')
-    for j in [c for c in fn.walk() if is_call(c, 'join') and isinstance(c.func, ast.Attribute)
+    cf = Canon(fn)
+    forms = [cf.expr(r.value) for r in returns_of(fn.node) if r.value is not None]
+    for j in [c for e in forms for c in ast.walk(e) if is_call(c, 'join') and isinstance(c.func, ast.Attribute)
               and isinstance(c.func.value, ast.Constant) and c.func.value.value not in ('',)]:
         a = j.args[0] if j.args else None
         ok = a is not None and isinstance(a, ast.Call) and call_name(a) == 'map' and len(a.args) == 2 and \
             unparse(a.args[0]) == 'str' and unparse(a.args[1]).endswith('.coord')
-        ok = ok or (a is not None and isinstance(a, ast.GeneratorExp) and unparse(a.elt).startswith(('str(', "'%d'")))
+        ok = ok or (a is not None and isinstance(a, (ast.GeneratorExp, ast.ListComp)) and len(a.generators) == 1 and not a.generators[0].ifs and
+                    unparse(a.generators[0].iter).endswith('.coord') and
+                    unparse(a.elt) in ('str(%s)' % unparse(a.generators[0].target), "'%%d' %% %s" % unparse(a.generators[0].target)))
         ctx.check(ok, fn.short + ':lock-name-pieces', 'lock name joins str() of all tile.coord elements with a '
                   'separator', fn, j, fail='lock name pieces are not str() of the complete tile.coord: %s' % unparse(j))
 
@@ -729,7 +733,7 @@ def c05h(ctx):
     fn = ctx.fn(FILE + ':FileCache._store_single_color_tile')
     g = fn.cfg
     unlinks = [(n, c) for n, c in g.find(lambda x: is_call(x, 'os.unlink', 'os.remove')) if c.args and unparse(c.args[0]) == 'tile_loc']
-    links = g.find(lambda x: is_call(x, 'os.link', 'os.symlink'))
+    links = calls_to(g, Defs(fn.node), 'os.link', 'os.symlink')
     if not links:
         raise Undecided('no os.link/os.symlink in _store_single_color_tile')
     if not unlinks:
@@ -757,10 +761,12 @@ def c05h(ctx):
                        'tile or a dangling link survives and the new link is silently not created' % unparse(st.test))
     else:
         ctx.ok(fn.short + ':unlink-iff-present', 'unconditional unlink', fn, uc)
+    hdefs = Defs(fn.node)
     for n, c in links:
-        ctx.check(g.reaches_avoiding(0, n, avoid=()) and not _reach_without(g, n, st, un), fn.short + ':unlink-before-' + simple_name(c),
-                  'the unlink statement precedes %s on every path' % call_name(c), fn, c,
-                  fail='%s can be reached without passing the unlink statement' % call_name(c))
+        for t in call_targets(c, hdefs):
+            ctx.check(g.reaches_avoiding(0, n, avoid=()) and not _reach_without(g, n, st, un), fn.short + ':unlink-before-' + t.split('.')[-1],
+                      'the unlink statement precedes %s on every path' % t, fn, c,
+                      fail='%s can be reached without passing the unlink statement' % t)
 
 
 def _reach_without(g, target, ifstmt, unlink_node):
@@ -885,7 +891,7 @@ def c05k(ctx):
     sc = ctx.fn(FILE + ':FileCache._store_single_color_tile')
     g = sc.cfg
     stores = g.find(lambda x: is_call(x, 'self._store') and len(x.args) >= 2 and unparse(x.args[1]) == 'real_tile_loc')
-    links = g.find(lambda x: is_call(x, 'os.link', 'os.symlink'))
+    links = calls_to(g, Defs(sc.node), 'os.link', 'os.symlink')
     ok = bool(stores) and bool(links)
     for n, x in stores:
         ok = ok and g.guarded(n, lambda at: at.mentions(lambda y: is_call(y, 'os.path.exists') and unparse(y.args[0]) == 'real_tile_loc'), False)
